@@ -137,4 +137,23 @@ PROPS = {
         "assumptions": [],
         "gen_obligations": ["C06_published and C06_boundary are decided over the regenerated model list and grammar data"],
     },
+    "C17": {
+        "harness": "c17",
+        "theorems": ["DL.C17_tables", "DL.C17_parameter_rows", "DL.C17_constant_rows", "DL.C17_option", "DL.C17_option_absent", "DL.C17_coupling",
+                     "DL.C17_expand_node", "DL.C17_expand_combinations", "DL.C17_expand_leaf", "DL.C17_expand_replace", "DL.C17_policy"],
+        "partial": ["the reading of the options text into statements (ampgen.lark, Lark LALR) is tied by the correspondence check, not proved",
+                    "exp(i phase) is not modelled: couplings stay symbolic (interpretation flag + the two numerals); the harness compares the "
+                    "complex numbers to 1e-12", "particle_from_string_name is an oracle parameter (sent with each operation)"],
+        "assumptions": ["fix flags are integers (AmpGen convention 0/1/2)"],
+        "gen_obligations": ["C17_policy is decided over the reset policy regenerated from amplitudechain.py"],
+    },
+    "C18": {
+        "harness": "c18",
+        "theorems": ["DL.C18_perms", "DL.C18_perms_nodup", "DL.C18_perms_error", "DL.C18_count", "DL.C18_emit", "DL.C18_emit_sf_count",
+                     "DL.C18_masses", "DL.C18_table_total"],
+        "partial": ["the emitted text is parsed back by the harness (regular expressions); particle attributes (spin type, J, charm content, "
+                    "programmatic name) are oracle inputs from the `particle` package"],
+        "assumptions": [],
+        "gen_obligations": ["C18_table_total is decided over known_spinfactors / SF_4Body regenerated from goofit.py"],
+    },
 }
